@@ -387,7 +387,9 @@ class C28(Property):
             "random quadratic, a linear function or random dyadic values; surrogate in {ResponseSurface, "
             "Kriging(nugget 0|default|1e-10, eval_rmse, lapack_driver), NearestNeighbor linear | "
             "weighted(num_neighbors, dist_eff) | rbf(num_neighbors, rbf_family -3..4)}; queries at "
-            "training points, near training points, random points, plus cache-order scenarios. comp "
+            "training points, near training points, random points, plus cache-order scenarios; first in the "
+            "stream a family of badly scaled full-rank ResponseSurface designs (calendar year, Pa, Kelvin, "
+            "Mach, 1e-5-sized inputs; cond 1e9..3e12; exactly representable data and quadratic). comp "
             "cases: MetaModelUnStructuredComp with 1-3 input variables, 1-2 outputs (sizes 1-2), "
             "default / per-output surrogates, vec_size 1-3, retraining through train=True or re-setup. "
             "Non-trivial: the surrogate trained and at least one clause of the property was evaluated "
@@ -403,7 +405,18 @@ class C28(Property):
         "finite-difference checks of nearest-neighbour interpolators only where the neighbour set is "
         "provably constant on the stencil (brute-force margins)",
         "ResponseSurface reproduction is demanded at all points only when the design matrix has full "
-        "column rank (exact rational rank), else at the training points",
+        "column rank (exact rational rank), else at the training points; the tolerance is 1e-8 relative "
+        "plus the backward-error bound of a backward-stable least-squares solve, "
+        "8 eps ||row^T X^+|| (||y|| + ||X|| ||beta||), with the leverage ||row^T X^+|| computed exactly "
+        "from (X^T X)^-1 in rationals; it is demanded only up to a certified cond(X) <= 1e13 "
+        "(cond^2 <= ||X^T X||_F ||(X^T X)^-1||_F, exact): beyond that numpy.lstsq's documented default "
+        "cut-off eps*max(M,N) itself truncates the double-precision design",
+        "RBF interpolator: training outputs are demanded at training inputs to 1e-8 relative plus the "
+        "rounding level of the training solve, 16 eps N (2 phi(0)) max|weights| tvr, where the size of "
+        "the weights (public attribute `weights`; for the Lean comparison: of the exactly solved system) "
+        "measures the conditioning of the training matrix (multiquadric family -3 and high-order "
+        "families with many neighbours on clustered points reach cond 1e14 and weights 1e13); the same "
+        "level enters the finite-difference check of linearize",
     ]
     level = 'partial'
     level_text = (
